@@ -45,6 +45,39 @@ def planeInit (point n pos : V3) : V3 := pos - V3.smul (V3.dot (pos - point) n /
 /-- `RadialClamp.function([t])`: the creation point turned about the axis by `θ = 2·atan2(|μ n|, w)` (`t = θ·radius`) -/
 def radialClamp (center n : V3) (w mu : Rat) (initial : V3) : V3 := rotP w (V3.smul mu n) center initial
 
+/-! ### clamps on curves and parametric surfaces: the exactly representable families -/
+
+/-- `CurveClamp.function([t])` on a `LineCurve`: `curve.get_point(t) = point_1.position + vector·t` -/
+def curveLine (p1 p2 : V3) (t : Rat) : V3 := p1 + V3.smul t (p2 - p1)
+
+/-- the parameter within the curve's bounds `[b0, b1]` whose point is closest to `pos` -/
+def curveLineInitParam (p1 p2 : V3) (b0 b1 : Rat) (pos : V3) : Rat :=
+  clampTo b0 b1 (V3.dot (pos - p1) (p2 - p1) / V3.dot (p2 - p1) (p2 - p1))
+
+/-- position a fresh `CurveClamp` on a `LineCurve` reports -/
+def curveLineInit (p1 p2 : V3) (b0 b1 : Rat) (pos : V3) : V3 := curveLine p1 p2 (curveLineInitParam p1 p2 b0 b1 pos)
+
+/-- `CurveClamp.function([t])` on a `LinearInterpolatedCurve`: `scipy.interpolate.interp1d` through the knots
+    `(parameter, point)` — piecewise linear; outside the knot range the library raises (no extrapolation) -/
+def polyEval : List (Rat × V3) → Rat → Option V3
+  | a :: b :: rest, t =>
+      if t < a.1 then none
+      else if t ≤ b.1 then some (a.2 + V3.smul ((t - a.1) / (b.1 - a.1)) (b.2 - a.2))
+      else polyEval (b :: rest) t
+  | _, _ => none
+
+/-- knot parameters strictly increasing -/
+def knotsOk : List (Rat × V3) → Bool
+  | a :: b :: rest => decide (a.1 < b.1) && knotsOk (b :: rest)
+  | _ => true
+
+/-- `ParametricSurfaceClamp.function([u, v])` for a plane `o + u·a + v·b` -/
+def surfPlane (o a b : V3) (u v : Rat) : V3 := o + V3.smul u a + V3.smul v b
+
+/-- … and for the bilinear patch through four corners -/
+def surfBilinear (p00 p10 p01 p11 : V3) (u v : Rat) : V3 :=
+  V3.smul ((1 - u) * (1 - v)) p00 + V3.smul (u * (1 - v)) p10 + V3.smul ((1 - u) * v) p01 + V3.smul (u * v) p11
+
 /-! ### links -/
 
 structure Link where
@@ -99,9 +132,61 @@ def rotValid (a o l0 l1 f0 f1 : V3) (eps : Rat) : Option String :=
       && absR (V3.norm2 rl1 - V3.norm2 rl0) ≤ eps * scale then some "sin"
   else none
 
+/-! ### what the definitions above transcribe -/
+
+/-- the expression / statements of the source each model definition is the transcription of (regenerated from the
+    source into `Gen.c17Source` on every run; `T_C17_source` proves the two tables equal) -/
+def sourceTable : List (String × List String) := [
+  -- lineClamp: `t/s (p2 − p1)`, `s` the witness of `f.norm`; default bounds `[0, s]` (`lineInitParam … 0 s`)
+  ("LineClamp.function", ["point_1 + t[0] * f.unit_vector(point_2 - point_1)"]),
+  ("LineClamp.bounds", ["(0, f.norm(point_2 - point_1))"]),
+  ("LineClamp.initial_guess", ["[0]"]),
+  -- radialClamp: rotation of the creation point about (center, normal)
+  ("RadialClamp.function", ["f.rotate(initial_point, params[0] / radius, normal, center)"]),
+  ("RadialClamp.radius", ["f.point_to_line_distance(center, normal, position)"]),
+  ("RadialClamp.initial_guess", ["[0]"]),
+  -- curveLine / polyEval: the clamp evaluates the curve at its single parameter, bounds are the curve's
+  ("CurveClamp.function", ["curve.get_point(t[0])"]),
+  ("CurveClamp.initial", ["[initial_param]", "[curve.get_closest_param(position)]"]),
+  ("CurveClamp.super", ["super().__init__(position, lambda t: curve.get_point(t[0]), [list(curve.bounds)], initial)"]),
+  -- planeClamp / surfPlane
+  ("PlaneClamp.function", ["point + params[0] * u_dir + params[1] * v_dir"]),
+  ("PlaneClamp.u_dir", ["f.unit_vector(np.cross(random_dir, normal))"]),
+  ("PlaneClamp.v_dir", ["f.unit_vector(np.cross(u_dir, normal))"]),
+  ("PlaneClamp.initial_guess", ["[0, 0]"]),
+  ("ParametricSurfaceClamp.initial_guess", ["self.initial_params", "[0, 0]"]),
+  -- every clamp: position = function(params); a fresh clamp minimises the distance to the creation position
+  ("ClampBase.update_params", ["self.params = params", "self.position = self.function(self.params)"]),
+  ("ClampBase.get_params.distance", ["f.norm(self.position - self.function(params))"]),
+  -- curveLine
+  ("LineCurve.function", ["self.point_1.position + self.vector * t"]),
+  ("LineCurve.vector", ["self.point_2.position - self.point_1.position"]),
+  -- Link.update
+  ("LinkBase.update", ["new_position = self.transform()", "self.follower = new_position"]),
+  -- translationLink
+  ("TranslationLink.vector", ["self.follower - self.leader"]),
+  ("TranslationLink.transform", ["self.leader + self.vector"]),
+  -- rotationLink: always the ORIGINAL follower, turned by the angle between the original and the current radius
+  ("RotationLink.transform", ["f.rotate(self.orig_follower_pos, angle, self.axis, self.origin)"]),
+  ("RotationLink.orig_follower_pos", ["np.copy(self.follower)"]),
+  ("RotationLink.prev_radius", ["self.orig_leader_radius"]),
+  ("RotationLink._get_radius", ["point - self.origin - self._get_height(point)"]),
+  ("RotationLink._get_height", ["np.dot(point - self.origin, self.axis) * self.axis"]),
+  -- symmetryLink
+  ("SymmetryLink._get_follower", ["f.mirror(self.leader, self.normal, self.origin)"]),
+  ("SymmetryLink.transform", ["self._get_follower()"])]
+
 /-! ### line protocol -/
 
 def witnessOk (s : Rat) (d : V3) (eps : Rat) : Bool := s > 0 && absR (s * s - V3.dot d d) ≤ eps * (1 + V3.dot d d)
+
+def parseKnots : List String → Option (List (Rat × V3))
+  | k :: p :: rest => do
+      let k ← parseRat? k; let p ← parseV3? p
+      let r ← parseKnots rest
+      some ((k, p) :: r)
+  | [] => some []
+  | [_] => none
 
 def handle (op : String) (args : List String) : Option String :=
   match op, args with
@@ -128,6 +213,28 @@ def handle (op : String) (args : List String) : Option String :=
       let initial ← parseV3? initial
       if w * w + V3.dot (V3.smul mu n) (V3.smul mu n) == 0 then some "degenerate" else
       some (radialClamp center n w mu initial).toStr
+  | "c17.curveline", [p1, p2, t] => do
+      let p1 ← parseV3? p1; let p2 ← parseV3? p2; let t ← parseRat? t
+      some (curveLine p1 p2 t).toStr
+  | "c17.curvelineinit", [p1, p2, b0, b1, pos] => do
+      let p1 ← parseV3? p1; let p2 ← parseV3? p2; let b0 ← parseRat? b0; let b1 ← parseRat? b1
+      let pos ← parseV3? pos
+      if V3.dot (p2 - p1) (p2 - p1) == 0 then some "degenerate" else
+      if b1 < b0 then some "bad-bounds" else
+      some ((curveLineInit p1 p2 b0 b1 pos).toStr ++ " " ++ showRat (curveLineInitParam p1 p2 b0 b1 pos))
+  | "c17.poly", t :: knots => do
+      -- knots: k0 p0 k1 p1 …
+      let t ← parseRat? t
+      let ks ← parseKnots knots
+      if !knotsOk ks then some "bad-knots" else
+      some (match polyEval ks t with | some p => p.toStr | none => "out-of-range")
+  | "c17.surfplane", [o, a, b, u, v] => do
+      let o ← parseV3? o; let a ← parseV3? a; let b ← parseV3? b; let u ← parseRat? u; let v ← parseRat? v
+      some (surfPlane o a b u v).toStr
+  | "c17.surfbilinear", [p00, p10, p01, p11, u, v] => do
+      let p00 ← parseV3? p00; let p10 ← parseV3? p10; let p01 ← parseV3? p01; let p11 ← parseV3? p11
+      let u ← parseRat? u; let v ← parseRat? v
+      some (surfBilinear p00 p10 p01 p11 u v).toStr
   | "c17.tlink", [l0, f0, l1] => do
       let l0 ← parseV3? l0; let f0 ← parseV3? f0; let l1 ← parseV3? l1
       some ((Link.update ⟨l1, f0⟩ (translationLink l0 f0)).follower).toStr
